@@ -46,6 +46,10 @@ pub struct Case {
     /// initiator / acceptor over in-memory streams cut by a proxy
     #[serde(default)]
     pub via_actors: bool,
+    /// the local clocks tick only every third step, so that consecutive operations - on one replica or, with equal
+    /// offsets, on several - carry the same timestamp (ties are then decided by the content hash)
+    #[serde(default)]
+    pub coarse_clock: bool,
 }
 
 impl Prop for C04 {
@@ -78,13 +82,14 @@ impl Prop for C04 {
             3 => (r(), r(), prop_oneof![3 => 0u8..8, 1 => Just(255u8)]).prop_map(|(i, j, m)| Step::Session { i, j, m }),
             1 => r().prop_map(|r| Step::Restart { r }),
         ];
-        (2u8..=5, vec(prop::bool::weighted(0.25), 5), vec(-290i16..=290, 5), pools(6), vec(step, 1..=max), vec(any::<u16>(), 5), vec((r(), r()), 0..=3), prop::bool::weighted(0.2))
-            .prop_map(|(n, files, offsets, pools, mut steps, path, extra_pairs, via_actors)| {
+        let offsets = prop_oneof![2 => vec(-290i16..=290, 5), 1 => vec(prop::sample::select(vec![-1i16, 0, 0, 0, 1]), 5)];
+        (2u8..=5, vec(prop::bool::weighted(0.25), 5), offsets, pools(6), vec(step, 1..=max), vec(any::<u16>(), 5), vec((r(), r()), 0..=3), (prop::bool::weighted(0.2), prop::bool::weighted(0.4)))
+            .prop_map(|(n, files, offsets, pools, mut steps, path, extra_pairs, (via_actors, coarse_clock))| {
                 if via_actors {
                     // an actor round trip per replica per step: keep these histories shorter
                     steps.truncate(40);
                 }
-                Case { n, files, offsets, pools, steps, path, extra_pairs, via_actors }
+                Case { n, files, offsets, pools, steps, path, extra_pairs, via_actors, coarse_clock }
             })
             .boxed()
     }
@@ -128,7 +133,8 @@ fn run(ctx: &mut Ctx, c: &Case, o: &mut Outcome) -> R<()> {
         es(st.store.import_namespace(nssec.clone().into()))?;
         stores.push(Some(st));
     }
-    let clock = |r: usize, step: usize| -> u64 { (T0 as i64 + 1_000_000 * c.offsets.get(r).copied().unwrap_or(0) as i64 + 10 + step as i64) as u64 };
+    let tick = if c.coarse_clock { 3 } else { 1 };
+    let clock = |r: usize, step: usize| -> u64 { (T0 as i64 + 1_000_000 * c.offsets.get(r).copied().unwrap_or(0) as i64 + 10 + (step / tick) as i64) as u64 };
     let mut written: Vec<SignedEntry> = vec![];
     let mut delivered_count: Vec<Vec<u32>> = vec![];
     let mut deletion_then_older_under_prefix = false;
@@ -143,6 +149,9 @@ fn run(ctx: &mut Ctx, c: &Case, o: &mut Outcome) -> R<()> {
                 let au = authors[idx(*a, authors.len())];
                 let key = keys[idx(*k, keys.len())].clone();
                 let e = sign(&nssec, &ESpec { a: au, k: key.clone(), t: now, c: cc });
+                if written.iter().any(|w| w.author() == e.author() && w.key() == e.key() && w.timestamp() == now && w.content_hash() != e.content_hash()) {
+                    o.class("same-author-key-timestamp-different-content");
+                }
                 // a write that is older than a deletion marker (written anywhere) prefixing its key
                 if written.iter().any(|w| w.author() == e.author() && w.content_len() == 0 && key.starts_with(w.key()) && w.timestamp() > now) {
                     deletion_then_older_under_prefix = true;
@@ -304,7 +313,8 @@ fn run_actors(ctx: &mut Ctx, c: &Case, o: &mut Outcome) -> R<()> {
     for i in 0..n {
         paths.push(if c.files.get(i).copied().unwrap_or(false) { Some(ctx.fresh_path("swarm")) } else { None });
     }
-    let clock = |r: usize, step: usize| -> u64 { (T0 as i64 + 1_000_000 * c.offsets.get(r).copied().unwrap_or(0) as i64 + 10 + step as i64) as u64 };
+    let tick = if c.coarse_clock { 3 } else { 1 };
+    let clock = |r: usize, step: usize| -> u64 { (T0 as i64 + 1_000_000 * c.offsets.get(r).copied().unwrap_or(0) as i64 + 10 + (step / tick) as i64) as u64 };
     let authors2 = authors.clone();
     let nssec2 = nssec.clone();
     let start = move |store: Store| {
@@ -343,6 +353,9 @@ fn run_actors(ctx: &mut Ctx, c: &Case, o: &mut Outcome) -> R<()> {
                     let au = authors[idx(*a, authors.len())];
                     let key = keys[idx(*k, keys.len())].clone();
                     let e = sign(&nssec, &ESpec { a: au, k: key.clone(), t: now, c: cc });
+                    if written.iter().any(|w| w.author() == e.author() && w.key() == e.key() && w.timestamp() == now && w.content_hash() != e.content_hash()) {
+                        o.class("same-author-key-timestamp-different-content");
+                    }
                     if written.iter().any(|w| w.author() == e.author() && w.content_len() == 0 && key.starts_with(w.key()) && w.timestamp() > now) {
                         deletion_then_older_under_prefix = true;
                     }
